@@ -12,6 +12,9 @@ Variable len : N.
 
 Definition pcs := tid -> pc.
 
+(** the part of the protocol that holds for every wrapped iterator, fused or not: disjoint tickets,
+    the ticket at the yielded counter is the one inside the critical section, the elements taken in
+    the critical section are the latest positions the wrapped iterator yielded *)
 Record Prot (sc sy cur : N) (p : pcs) : Prop := {
   p_le   : sy <= sc;
   p_cur  : cur <= len;
@@ -19,6 +22,14 @@ Record Prot (sc sy cur : N) (p : pcs) : Prop := {
   p_disj : forall t u b n b' n', t <> u -> ticket (p t) = Some (b, n) -> ticket (p u) = Some (b', n') ->
              b + n <= b' \/ b' + n' <= b;
   p_crit : forall t b n, in_crit (p t) = true -> ticket (p t) = Some (b, n) -> b = sy;
+  p_gotv : forall t, in_crit (p t) = true ->
+             rev (got_of (p t)) = ascN (cur - N.of_nat (length (got_of (p t)))) (length (got_of (p t))) /\
+             N.of_nat (length (got_of (p t))) <= cur
+}.
+
+(** the part that holds when the wrapped iterator is fused (it answers None only when it is exhausted):
+    positions and indices coincide *)
+Record ProtF (sc sy cur : N) (p : pcs) : Prop := {
   p_got  : forall t b n, in_crit (p t) = true -> ticket (p t) = Some (b, n) ->
              rev (got_of (p t)) = ascN b (length (got_of (p t))) /\
              (cur = b + N.of_nat (length (got_of (p t))) \/ (got_of (p t) = [] /\ cur = len));
@@ -43,29 +54,6 @@ Qed.
 
 Ltac spl u t := destruct (Nat.eq_dec u t) as [->|?]; [rewrite ?upd_same in *|rewrite ?upd_other in * by assumption].
 
-(** protocol-equivalent program counters: same ticket, same side of the critical section, same
-    elements taken *)
-Definition peq (a b : pc) : Prop :=
-  ticket a = ticket b /\ in_crit a = in_crit b /\ got_of a = got_of b /\
-  (forall q b0 g, b = PPub q b0 g -> a = PPub q b0 g) /\ (forall q b0 g, b = PSetF q b0 g -> exists g', a = PSetF q b0 g').
-
-Lemma prot_same sc sy cur p t x : Prot sc sy cur p -> peq (p t) x -> Prot sc sy cur (upd p t x).
-Proof.
-  intros I (Et & Ec & Eg & Ep & Es). split.
-  - apply (p_le _ _ _ _ I).
-  - apply (p_cur _ _ _ _ I).
-  - intros u b n. spl u t; [rewrite <- Et|]; apply (p_tk _ _ _ _ I).
-  - intros u v b n b' n' Hne. spl u t; spl v t; try congruence; rewrite <- ?Et; apply (p_disj _ _ _ _ I); assumption.
-  - intros u b n. spl u t; [rewrite <- Et, <- Ec|]; apply (p_crit _ _ _ _ I).
-  - intros u b n. spl u t; [rewrite <- Et, <- Ec, <- Eg|]; apply (p_got _ _ _ _ I).
-  - intros u q b g. spl u t; [intros E; apply (p_pub _ _ _ _ I t q b g); auto|apply (p_pub _ _ _ _ I)].
-  - intros u q b g. spl u t; [intros E; destruct (Es _ _ _ E) as (g' & E'); apply (p_setf _ _ _ _ I t q b g' E')|apply (p_setf _ _ _ _ I)].
-  - intros Ho. assert (Ho' : forall u, in_crit (p u) = false).
-    { intros u. specialize (Ho u). spl u t; [rewrite Ec|]; exact Ho. }
-    destruct (p_pos _ _ _ _ I Ho') as [H|[H|[H1 H2]]]; auto. right; right. split; [exact H1|].
-    intros u b n. spl u t; [rewrite <- Et|]; apply H2.
-Qed.
-
 (** a reservation: the reserved counter advances by [n >= 1] and the thread holds [sc, sc + n) *)
 Lemma prot_reserve sc sy cur p t x n :
   Prot sc sy cur p -> ticket (p t) = None -> in_crit (p t) = false ->
@@ -84,13 +72,35 @@ Proof.
     + rewrite Tx. intros E E'. injection E' as <- <-. pose proof (p_tk _ _ _ _ I u b m E). lia.
     + apply (p_disj _ _ _ _ I); assumption.
   - intros u b m. spl u t; [rewrite Cx; discriminate|apply (p_crit _ _ _ _ I)].
-  - intros u b m. spl u t; [rewrite Cx; discriminate|apply (p_got _ _ _ _ I)].
-  - intros u q b g. spl u t; [intros E; contradiction (Npub q b g)|apply (p_pub _ _ _ _ I)].
-  - intros u q b g. spl u t; [intros E; contradiction (Nsetf q b g)|apply (p_setf _ _ _ _ I)].
+  - intros u. spl u t; [rewrite Cx; discriminate|apply (p_gotv _ _ _ _ I)].
+Qed.
+
+Lemma protF_reserve sc sy cur p t x n :
+  Prot sc sy cur p -> ProtF sc sy cur p -> ticket (p t) = None -> in_crit (p t) = false ->
+  ticket x = Some (sc, n) -> in_crit x = false -> 1 <= n ->
+  (forall q b g, x <> PPub q b g) -> (forall q b g, x <> PSetF q b g) ->
+  ProtF (sc + n) sy cur (upd p t x).
+Proof.
+  intros I F Tn Cn Tx Cx Hn Npub Nsetf. pose proof (p_le _ _ _ _ I) as Hle. split.
+  - intros u b m. spl u t; [rewrite Cx; discriminate|apply (p_got _ _ _ _ F)].
+  - intros u q b g. spl u t; [intros E; contradiction (Npub q b g)|apply (p_pub _ _ _ _ F)].
+  - intros u q b g. spl u t; [intros E; contradiction (Nsetf q b g)|apply (p_setf _ _ _ _ F)].
   - intros Ho. assert (Ho' : forall u, in_crit (p u) = false).
     { intros u. specialize (Ho u). spl u t; [exact Cn|exact Ho]. }
-    destruct (p_pos _ _ _ _ I Ho') as [H|[H|[H1 H2]]]; auto. right; right. split; [lia|].
+    destruct (p_pos _ _ _ _ F Ho') as [H|[H|[H1 H2]]]; auto. right; right. split; [lia|].
     intros u b m. spl u t; [rewrite Tx; intros E; injection E as <- <-; lia|apply H2].
+Qed.
+
+(** nobody else is inside the critical section when the ticket at the yielded counter is outside *)
+Lemma prot_open sc sy cur p t n :
+  Prot sc sy cur p -> ticket (p t) = Some (sy, n) -> in_crit (p t) = false ->
+  forall u, in_crit (p u) = false.
+Proof.
+  intros I Tt Ct u. destruct (in_crit (p u)) eqn:E; [|reflexivity]. exfalso.
+  destruct (Nat.eq_dec u t) as [->|Hne]; [congruence|].
+  assert (exists b n, ticket (p u) = Some (b, n)) as (b & m & Tu) by (destruct (p u); cbn in *; try discriminate; eauto).
+  pose proof (p_crit _ _ _ _ I u b m E Tu). pose proof (p_tk _ _ _ _ I u b m Tu). pose proof (p_tk _ _ _ _ I t _ _ Tt).
+  pose proof (p_disj _ _ _ _ I u t b m _ _ Hne Tu Tt). lia.
 Qed.
 
 (** entering the critical section: the ticket begins at the yielded counter *)
@@ -99,12 +109,7 @@ Lemma prot_enter sc sy cur p t q :
   Prot sc sy cur (upd p t (PSrc q sy [])).
 Proof.
   intros I Tt Ct.
-  assert (Hopen : forall u, in_crit (p u) = false).
-  { intros u. destruct (in_crit (p u)) eqn:E; [|reflexivity]. exfalso.
-    destruct (Nat.eq_dec u t) as [->|Hne]; [congruence|].
-    assert (exists b n, ticket (p u) = Some (b, n)) as (b & n & Tu) by (destruct (p u); cbn in *; try discriminate; eauto).
-    pose proof (p_crit _ _ _ _ I u b n E Tu). pose proof (p_tk _ _ _ _ I u b n Tu). pose proof (p_tk _ _ _ _ I t _ _ Tt).
-    pose proof (p_disj _ _ _ _ I u t b n _ _ Hne Tu Tt). lia. }
+  pose proof (prot_open _ _ _ _ _ _ I Tt Ct) as Hopen.
   split.
   - apply (p_le _ _ _ _ I).
   - apply (p_cur _ _ _ _ I).
@@ -114,13 +119,24 @@ Proof.
     + intros E E'. injection E' as <- <-. apply (p_disj _ _ _ _ I u t); assumption.
     + apply (p_disj _ _ _ _ I); assumption.
   - intros u b n. spl u t; [cbn [ticket]; intros _ E; injection E as <- _; reflexivity|rewrite Hopen; discriminate].
+  - intros u. spl u t; [|rewrite Hopen; discriminate].
+    cbn [got_of length rev ascN N.of_nat]. intros _. split; [reflexivity|lia].
+Qed.
+
+Lemma protF_enter sc sy cur p t q :
+  Prot sc sy cur p -> ProtF sc sy cur p -> ticket (p t) = Some (sy, pub_incr q) -> in_crit (p t) = false ->
+  ProtF sc sy cur (upd p t (PSrc q sy [])).
+Proof.
+  intros I F Tt Ct.
+  pose proof (prot_open _ _ _ _ _ _ I Tt Ct) as Hopen.
+  split.
   - intros u b n. spl u t; [|rewrite Hopen; discriminate].
     cbn [ticket in_crit got_of]. intros _ E. injection E as <- _. cbn [rev length ascN]. split; [reflexivity|].
     rewrite N.add_0_r.
-    destruct (p_pos _ _ _ _ I Hopen) as [H|[H|[H1 H2]]]; [left; exact H|right; split; [reflexivity|exact H]|].
+    destruct (p_pos _ _ _ _ F Hopen) as [H|[H|[H1 H2]]]; [left; exact H|right; split; [reflexivity|exact H]|].
     exfalso. apply (H2 t _ _ Tt). reflexivity.
-  - intros u q' b g. spl u t; [discriminate|apply (p_pub _ _ _ _ I)].
-  - intros u q' b g. spl u t; [discriminate|apply (p_setf _ _ _ _ I)].
+  - intros u q' b g. spl u t; [discriminate|apply (p_pub _ _ _ _ F)].
+  - intros u q' b g. spl u t; [discriminate|apply (p_setf _ _ _ _ F)].
   - intros Ho. specialize (Ho t). rewrite upd_same in Ho. discriminate.
 Qed.
 
@@ -128,22 +144,31 @@ Qed.
 Lemma prot_retag sc sy cur p t x :
   Prot sc sy cur p ->
   ticket (p t) = ticket x -> in_crit (p t) = in_crit x -> got_of (p t) = got_of x ->
-  (forall q b g, x = PPub q b g -> N.of_nat (length g) = pub_incr q \/ cur = len) ->
-  (forall q b g, x = PSetF q b g -> cur = len) ->
   Prot sc sy cur (upd p t x).
 Proof.
-  intros I Et Ec Eg Ep Es. split.
+  intros I Et Ec Eg. split.
   - apply (p_le _ _ _ _ I).
   - apply (p_cur _ _ _ _ I).
   - intros u b n. spl u t; [rewrite <- Et|]; apply (p_tk _ _ _ _ I).
   - intros u v b n b' n' Hne. spl u t; spl v t; try congruence; rewrite <- ?Et; apply (p_disj _ _ _ _ I); assumption.
   - intros u b n. spl u t; [rewrite <- Et, <- Ec|]; apply (p_crit _ _ _ _ I).
-  - intros u b n. spl u t; [rewrite <- Et, <- Ec, <- Eg|]; apply (p_got _ _ _ _ I).
-  - intros u q b g. spl u t; [apply Ep|apply (p_pub _ _ _ _ I)].
-  - intros u q b g. spl u t; [apply Es|apply (p_setf _ _ _ _ I)].
+  - intros u. spl u t; [rewrite <- Ec, <- Eg|]; apply (p_gotv _ _ _ _ I).
+Qed.
+
+Lemma protF_retag sc sy cur p t x :
+  ProtF sc sy cur p ->
+  ticket (p t) = ticket x -> in_crit (p t) = in_crit x -> got_of (p t) = got_of x ->
+  (forall q b g, x = PPub q b g -> N.of_nat (length g) = pub_incr q \/ cur = len) ->
+  (forall q b g, x = PSetF q b g -> cur = len) ->
+  ProtF sc sy cur (upd p t x).
+Proof.
+  intros F Et Ec Eg Ep Es. split.
+  - intros u b n. spl u t; [rewrite <- Et, <- Ec, <- Eg|]; apply (p_got _ _ _ _ F).
+  - intros u q b g. spl u t; [apply Ep|apply (p_pub _ _ _ _ F)].
+  - intros u q b g. spl u t; [apply Es|apply (p_setf _ _ _ _ F)].
   - intros Ho. assert (Ho' : forall u, in_crit (p u) = false).
     { intros u. specialize (Ho u). spl u t; [rewrite Ec|]; exact Ho. }
-    destruct (p_pos _ _ _ _ I Ho') as [H|[H|[H1 H2]]]; auto. right; right. split; [exact H1|].
+    destruct (p_pos _ _ _ _ F Ho') as [H|[H|[H1 H2]]]; auto. right; right. split; [exact H1|].
     intros u b n. spl u t; [rewrite <- Et|]; apply H2.
 Qed.
 
@@ -160,12 +185,21 @@ Proof.
   - intros u v b n b' n' Hne. spl u t; spl v t; try congruence; rewrite ?Tx; try discriminate;
       try (intros _ E; discriminate E); try (apply (p_disj _ _ _ _ I); assumption).
   - intros u b n. spl u t; [rewrite Cx; discriminate|apply (p_crit _ _ _ _ I)].
-  - intros u b n. spl u t; [rewrite Cx; discriminate|apply (p_got _ _ _ _ I)].
-  - intros u q b g. spl u t; [intros E; contradiction (Npub q b g)|apply (p_pub _ _ _ _ I)].
-  - intros u q b g. spl u t; [intros E; contradiction (Nsetf q b g)|apply (p_setf _ _ _ _ I)].
+  - intros u. spl u t; [rewrite Cx; discriminate|apply (p_gotv _ _ _ _ I)].
+Qed.
+
+Lemma protF_leave sc sy cur p t x :
+  ProtF sc sy cur p -> in_crit (p t) = false -> ticket x = None -> in_crit x = false ->
+  (forall q b g, x <> PPub q b g) -> (forall q b g, x <> PSetF q b g) ->
+  ProtF sc sy cur (upd p t x).
+Proof.
+  intros F Ct Tx Cx Npub Nsetf. split.
+  - intros u b n. spl u t; [rewrite Cx; discriminate|apply (p_got _ _ _ _ F)].
+  - intros u q b g. spl u t; [intros E; contradiction (Npub q b g)|apply (p_pub _ _ _ _ F)].
+  - intros u q b g. spl u t; [intros E; contradiction (Nsetf q b g)|apply (p_setf _ _ _ _ F)].
   - intros Ho. assert (Ho' : forall u, in_crit (p u) = false).
     { intros u. specialize (Ho u). spl u t; [exact Ct|exact Ho]. }
-    destruct (p_pos _ _ _ _ I Ho') as [H|[H|[H1 H2]]]; auto. right; right. split; [exact H1|].
+    destruct (p_pos _ _ _ _ F Ho') as [H|[H|[H1 H2]]]; auto. right; right. split; [exact H1|].
     intros u b n. spl u t; [rewrite Tx; discriminate|apply H2].
 Qed.
 
@@ -181,8 +215,7 @@ Proof.
   assert (Tx : ticket x = Some (b, pub_incr q)) by (destruct Hx as [->|[-> _]]; reflexivity).
   assert (Cx : in_crit x = true) by (destruct Hx as [->|[-> _]]; reflexivity).
   assert (Gx : got_of x = cur :: g) by (destruct Hx as [->|[-> _]]; reflexivity).
-  pose proof (p_got _ _ _ _ I t _ _ Ct Tt) as [Hasc Hcur]. rewrite Ept in Hasc, Hcur. cbn [got_of] in Hasc, Hcur.
-  assert (Hc : cur = b + N.of_nat (length g)) by (destruct Hcur as [H|[_ H]]; [exact H|lia]).
+  pose proof (p_gotv _ _ _ _ I t Ct) as [Hasc Hle]. rewrite Ept in Hasc, Hle. cbn [got_of] in Hasc, Hle.
   assert (Hoth : forall u, u <> t -> in_crit (p u) = false).
   { intros u Hne. destruct (in_crit (p u)) eqn:E; [|reflexivity]. exfalso. apply Hne. eapply prot_mutex; eassumption. }
   split.
@@ -191,11 +224,33 @@ Proof.
   - intros u b' n. spl u t; [rewrite Tx, <- Tt|]; apply (p_tk _ _ _ _ I).
   - intros u v b1 n1 b2 n2 Hne. spl u t; spl v t; try congruence; rewrite ?Tx, <- ?Tt; apply (p_disj _ _ _ _ I); assumption.
   - intros u b' n. spl u t; [rewrite Tx, <- Tt; intros _; apply (p_crit _ _ _ _ I); exact Ct|rewrite Hoth by assumption; discriminate].
+  - intros u. spl u t; [|rewrite Hoth by assumption; discriminate].
+    rewrite Gx. intros _. cbn [rev length]. rewrite Hasc. rewrite Nat2N.inj_succ. split; [|lia].
+    replace (cur + 1 - N.succ (N.of_nat (length g))) with (cur - N.of_nat (length g)) by lia.
+    rewrite <- ascN_snoc. f_equal. f_equal. lia.
+Qed.
+
+Lemma protF_take sc sy cur p t q b g x :
+  Prot sc sy cur p -> ProtF sc sy cur p -> p t = PSrc q b g -> cur < len ->
+  (x = PSrc q b (cur :: g) \/ (x = PPub q b (cur :: g) /\ N.of_nat (length (cur :: g)) = pub_incr q)) ->
+  ProtF sc sy (cur + 1) (upd p t x).
+Proof.
+  intros I F Ept Hlt Hx.
+  assert (Tt : ticket (p t) = Some (b, pub_incr q)) by (rewrite Ept; reflexivity).
+  assert (Ct : in_crit (p t) = true) by (rewrite Ept; reflexivity).
+  assert (Tx : ticket x = Some (b, pub_incr q)) by (destruct Hx as [->|[-> _]]; reflexivity).
+  assert (Cx : in_crit x = true) by (destruct Hx as [->|[-> _]]; reflexivity).
+  assert (Gx : got_of x = cur :: g) by (destruct Hx as [->|[-> _]]; reflexivity).
+  pose proof (p_got _ _ _ _ F t _ _ Ct Tt) as [Hasc Hcur]. rewrite Ept in Hasc, Hcur. cbn [got_of] in Hasc, Hcur.
+  assert (Hc : cur = b + N.of_nat (length g)) by (destruct Hcur as [H|[_ H]]; [exact H|lia]).
+  assert (Hoth : forall u, u <> t -> in_crit (p u) = false).
+  { intros u Hne. destruct (in_crit (p u)) eqn:E; [|reflexivity]. exfalso. apply Hne. eapply prot_mutex; eassumption. }
+  split.
   - intros u b' n. spl u t; [|rewrite Hoth by assumption; discriminate].
     rewrite Tx, Gx. intros _ E. injection E as <- _. cbn [rev length]. rewrite Hasc. split.
     + rewrite Hc. apply ascN_snoc.
     + left. rewrite Nat2N.inj_succ. lia.
-  - intros u q' b' g'. spl u t; [|apply (fun E => or_introl (A:=_) (B:=cur + 1 = len) I) || idtac].
+  - intros u q' b' g'. spl u t.
     + destruct Hx as [->|[-> Hn]]; [discriminate|]. intros E. injection E as <- <- <-. left. exact Hn.
     + intros E. pose proof (Hoth u ltac:(assumption)) as Hc'. rewrite E in Hc'. discriminate.
   - intros u q' b' g'. spl u t.
@@ -226,13 +281,29 @@ Proof.
   - intros u v b1 n1 b2 n2 Hne. spl u t; spl v t; try congruence; rewrite ?Tx; try discriminate;
       try (intros _ E; discriminate E); try (apply (p_disj _ _ _ _ I); assumption).
   - intros u b' n. spl u t; [rewrite Cx; discriminate|rewrite Hoth by assumption; discriminate].
+  - intros u. spl u t; [rewrite Cx; discriminate|rewrite Hoth by assumption; discriminate].
+Qed.
+
+Lemma protF_publish sc sy cur p t q b g x :
+  Prot sc sy cur p -> ProtF sc sy cur p -> p t = PPub q b g -> ticket x = None -> in_crit x = false ->
+  (forall q b g, x <> PPub q b g) -> (forall q b g, x <> PSetF q b g) ->
+  ProtF sc (sy + pub_incr q) cur (upd p t x).
+Proof.
+  intros I F Ept Tx Cx Npub Nsetf.
+  assert (Tt : ticket (p t) = Some (b, pub_incr q)) by (rewrite Ept; reflexivity).
+  assert (Ct : in_crit (p t) = true) by (rewrite Ept; reflexivity).
+  pose proof (p_crit _ _ _ _ I t _ _ Ct Tt) as Hb. subst b.
+  pose proof (p_tk _ _ _ _ I t _ _ Tt) as (Hn & _ & Hsc).
+  assert (Hoth : forall u, u <> t -> in_crit (p u) = false).
+  { intros u Hne. destruct (in_crit (p u)) eqn:E; [|reflexivity]. exfalso. apply Hne. eapply prot_mutex; eassumption. }
+  split.
   - intros u b' n. spl u t; [rewrite Cx; discriminate|rewrite Hoth by assumption; discriminate].
   - intros u q' b' g'. spl u t; [intros E; contradiction (Npub q' b' g')|].
     intros E. pose proof (Hoth u ltac:(assumption)) as Hc'. rewrite E in Hc'. discriminate.
   - intros u q' b' g'. spl u t; [intros E; contradiction (Nsetf q' b' g')|].
     intros E. pose proof (Hoth u ltac:(assumption)) as Hc'. rewrite E in Hc'. discriminate.
-  - intros _. pose proof (p_got _ _ _ _ I t _ _ Ct Tt) as [_ Hcur]. rewrite Ept in Hcur. cbn [got_of] in Hcur.
-    destruct (p_pub _ _ _ _ I t q sy g Ept) as [Hfull|Hex]; [|right; left; exact Hex].
+  - intros _. pose proof (p_got _ _ _ _ F t _ _ Ct Tt) as [_ Hcur]. rewrite Ept in Hcur. cbn [got_of] in Hcur.
+    destruct (p_pub _ _ _ _ F t q sy g Ept) as [Hfull|Hex]; [|right; left; exact Hex].
     destruct Hcur as [Hc|[_ Hc]]; [left; lia|right; left; exact Hc].
 Qed.
 
@@ -244,9 +315,6 @@ Lemma prot_abandon sc sy cur p t x :
   Prot sc sy cur (upd p t x).
 Proof.
   intros I Ct Tx Cx Npub Nsetf.
-  assert (exists b n, ticket (p t) = Some (b, n)) as (b & n & Tt) by (destruct (p t); cbn in *; try discriminate; eauto).
-  pose proof (p_crit _ _ _ _ I t _ _ Ct Tt) as Hb. subst b.
-  pose proof (p_tk _ _ _ _ I t _ _ Tt) as (Hn & _ & Hsc).
   assert (Hoth : forall u, u <> t -> in_crit (p u) = false).
   { intros u Hne. destruct (in_crit (p u)) eqn:E; [|reflexivity]. exfalso. apply Hne. eapply prot_mutex; eassumption. }
   split.
@@ -256,6 +324,21 @@ Proof.
   - intros u v b1 n1 b2 n2 Hne. spl u t; spl v t; try congruence; rewrite ?Tx; try discriminate;
       try (intros _ E; discriminate E); try (apply (p_disj _ _ _ _ I); assumption).
   - intros u b' m. spl u t; [rewrite Cx; discriminate|rewrite Hoth by assumption; discriminate].
+  - intros u. spl u t; [rewrite Cx; discriminate|rewrite Hoth by assumption; discriminate].
+Qed.
+
+Lemma protF_abandon sc sy cur p t x :
+  Prot sc sy cur p -> ProtF sc sy cur p -> in_crit (p t) = true -> ticket x = None -> in_crit x = false ->
+  (forall q b g, x <> PPub q b g) -> (forall q b g, x <> PSetF q b g) ->
+  ProtF sc sy cur (upd p t x).
+Proof.
+  intros I F Ct Tx Cx Npub Nsetf.
+  assert (exists b n, ticket (p t) = Some (b, n)) as (b & n & Tt) by (destruct (p t); cbn in *; try discriminate; eauto).
+  pose proof (p_crit _ _ _ _ I t _ _ Ct Tt) as Hb. subst b.
+  pose proof (p_tk _ _ _ _ I t _ _ Tt) as (Hn & _ & Hsc).
+  assert (Hoth : forall u, u <> t -> in_crit (p u) = false).
+  { intros u Hne. destruct (in_crit (p u)) eqn:E; [|reflexivity]. exfalso. apply Hne. eapply prot_mutex; eassumption. }
+  split.
   - intros u b' m. spl u t; [rewrite Cx; discriminate|rewrite Hoth by assumption; discriminate].
   - intros u q' b' g'. spl u t; [intros E; contradiction (Npub q' b' g')|].
     intros E. pose proof (Hoth u ltac:(assumption)) as Hc'. rewrite E in Hc'. discriminate.
@@ -277,6 +360,15 @@ Proof.
   destruct (p t); cbn in *; try reflexivity; discriminate.
 Qed.
 
+Lemma protF_idle sc sy cur p t x :
+  ProtF sc sy cur p -> ticket (p t) = None -> ticket x = None -> in_crit x = false ->
+  (forall q b g, x <> PPub q b g) -> (forall q b g, x <> PSetF q b g) ->
+  ProtF sc sy cur (upd p t x).
+Proof.
+  intros F Tt Tx Cx Npub Nsetf. apply protF_leave; try assumption.
+  destruct (p t); cbn in *; try reflexivity; discriminate.
+Qed.
+
 End Prot.
 
 Lemma prot_ext len sc sy cur (p p' : pcs) : (forall t, p t = p' t) -> Prot len sc sy cur p -> Prot len sc sy cur p'.
@@ -287,6 +379,12 @@ Proof.
   - intros t. rewrite <- E. apply (p_tk _ _ _ _ _ I).
   - intros t u. rewrite <- !E. apply (p_disj _ _ _ _ _ I).
   - intros t. rewrite <- E. apply (p_crit _ _ _ _ _ I).
+  - intros t. rewrite <- E. apply (p_gotv _ _ _ _ _ I).
+Qed.
+
+Lemma protF_ext len sc sy cur (p p' : pcs) : (forall t, p t = p' t) -> ProtF len sc sy cur p -> ProtF len sc sy cur p'.
+Proof.
+  intros E I. split.
   - intros t. rewrite <- E. apply (p_got _ _ _ _ _ I).
   - intros t. rewrite <- E. apply (p_pub _ _ _ _ _ I).
   - intros t. rewrite <- E. apply (p_setf _ _ _ _ _ I).
